@@ -57,6 +57,7 @@ class Profile:
         self.pybind_safe = True      # dunder methods restricted to the supported three
         self.allow_this = True
         self.scoped_uses = True
+        self.p_scoped = 0.2
         self.special_types = True
         self.__dict__.update(kw)
 
@@ -122,7 +123,7 @@ class Gen:
         x = r.random()
         if tparams and x < 0.35:
             t = r.choice(tparams)
-            if self.p.scoped_uses and r.random() < 0.2:
+            if self.p.scoped_uses and r.random() < self.p.p_scoped:
                 self.count('scoped_param')
                 return ('ty', ('tn', [t], r.choice(['Value', 'Type', 'Jacobian', 'shared_ptr']), []), c, p, False)
             self.count('param_use')
